@@ -3,7 +3,7 @@ from fractions import Fraction as Fr
 import itertools
 import numpy as np
 from .common import guarded, run_model, rats, rows, ints, fracs, close, POOL, layout
-from .npcutil import npc_exact
+from .npcutil import liptak_bracket, npc_exact
 
 RULE = ("p-value vectors with j = 2..6 in every kind of order (sorted, reversed, rotations/3-cycles, random, ties), "
         "integer distr matrices with ties (B = 2..30), Fisher / Tippett / user combiner, both plus1; non-trivial = "
@@ -50,7 +50,7 @@ def run(ctx):
         j = ctx.rng.randint(2, 6)
         B = ctx.rng.randint(2, 30) if ctx.rng.random() < 0.93 else ctx.rng.choice([64, 120])
         plus1 = ctx.rng.random() < 0.5
-        comb = ctx.rng.choice(["fisher", "tippett", "callable"])
+        comb = ctx.rng.choice(["fisher", "tippett", "callable", "liptak"])
         name = {"callable": "negsum"}.get(comb, comb)
         den = ctx.rng.choice([B + (1 if plus1 else 0), 64, 20])
         base = sorted(ctx.rng.sample(range(1, den + 1), min(j, den)))
@@ -68,6 +68,8 @@ def run(ctx):
         else:
             vals = base[:]; ctx.rng.shuffle(vals)
         pv = [Fr(v, den) for v in vals]
+        if ctx.rng.random() < 0.15:      # a raw p-value of exactly 1 (legal and common for permutation p-values)
+            pv[ctx.rng.randrange(j)] = Fr(1); ctx.count("raw-p-equal-1")
         hi = ctx.rng.choice([2, 4, 9])
         D = [[ctx.rng.randint(0, hi) for _ in range(j)] for _ in range(B)]
         pf = POOL.get("pv", [float(v) for v in pv], float); Df = layout(POOL.get("distr", D, float), ctx.rng)
@@ -86,6 +88,22 @@ def run(ctx):
         if r[0] != "ok":
             det.update({"issue": "call failed", "returned": r[1:]}); ctx.violation("oracle", det, site="fwer_minp"); continue
         out = [float(v) for v in r[1]]
+        if comb == "liptak":
+            # double-precision oracle: numerator brackets of every nested npc, running maxima of both ends
+            order = [int(i) for i in np.argsort(pf)]; c_ = 1 if plus1 else 0
+            los, his = [], []
+            for jj in range(j - 1):
+                cols = order[jj:]
+                lo_, hi_ = liptak_bracket([pv[i] for i in cols], [[row[i] for i in cols] for row in D], plus1)
+                los.append(lo_ / (B + c_)); his.append(hi_ / (B + c_))
+            los.append(float(pv[order[-1]])); his.append(float(pv[order[-1]]))
+            los = np.maximum.accumulate(los); his = np.maximum.accumulate(his)
+            ctx.count("liptak-bracket")
+            if len(out) != j or any(not (los[k] - 1e-12 <= out[order[k]] <= his[k] + 1e-12) for k in range(j)):
+                det.update({"issue": "not the closed-testing adjusted p-values (Liptak) in the caller's order", "returned": out,
+                            "bracket_in_sorted_order": [los.tolist(), his.tolist()], "order": order})
+                ctx.violation("oracle", det, site="fwer_minp")
+            continue
         want, amb, _ = exact_fwer(pv, D, name, plus1, [int(i) for i in np.argsort(pf)])
         if amb:
             ctx.bracketed += 1; continue
